@@ -59,11 +59,19 @@ def imp(src, dst):
     wo = wt + "-orig"
     try:
         assert sh("git -C /repo worktree add --detach %s HEAD -q" % wt).returncode == 0
-        assert sh("git -C /repo worktree add --detach %s %s -q" % (wo, ORIG)).returncode == 0
-        a = sh("git -C %s apply %s/patch.diff" % (wo, src))
-        if a.returncode != 0:
-            print("PATCH DOES NOT APPLY TO ORIG", a.stdout.decode()[-500:])
+        # find the commit the change was written against: the newest one to which the patch applies
+        base = None
+        for rev in sh("git -C /repo rev-list HEAD").stdout.decode().split():
+            sh("git -C /repo worktree remove --force %s" % wo)
+            assert sh("git -C /repo worktree add --detach %s %s -q" % (wo, rev)).returncode == 0
+            if sh("git -C %s apply %s/patch.diff" % (wo, src)).returncode == 0:
+                base = rev
+                break
+        if base is None:
+            print("PATCH DOES NOT APPLY TO ANY COMMIT")
             return 1
+        global ORIG
+        ORIG = base
         files = sh("git -C %s diff --name-only" % wo).stdout.decode().split()
         for f in files:
             base = os.path.join(wt, ".base")
